@@ -1,7 +1,7 @@
 (* wire glue for C13: histories of API calls through the hidden-state model *)
 (* WIRE engine=113 fn=dispatch_c13 *)
 From Coq Require Import List NArith ZArith Bool Arith.
-From RPFT Require Import Base.Sexp Base.PyStr Base.Result Gen.Tables Io.Hidden Io.HiddenInventory.
+From RPFT Require Import Base.Sexp Base.PyStr Base.Result Gen.Tables Io.Hidden Io.HiddenInventory Io.HiddenOrder.
 Import ListNotations.
 Local Open Scope N_scope.
 
@@ -122,6 +122,6 @@ Definition dispatch_c13 (fn : N) (args : list sexp) : sexp :=
                    | _, _ => s_badinput
                    end
   (* the regenerated-table facts, for the evidence *)
-  | 3, [] => L [enc_bool inventory_okb; enc_bool handler_discipline_okb]
+  | 3, [] => L [enc_bool inventory_okb; enc_bool handler_discipline_okb; enc_bool order_sources_okb]
   | _, _ => s_badinput
   end.
